@@ -64,11 +64,63 @@ Proof.
   - intro H; injection H as <- _. auto.
 Qed.
 
+(* sizes and the range of snd_una together *)
+Definition tpos (t : segments) : Prop := segs_pos t /\ 0 <= ss_snd_una t < M16.
+
+Lemma remove_up_to_ack_tpos t now ack sk t' r :
+  remove_up_to_ack t now ack sk = (t', r) -> tpos t -> tpos t'.
+Proof.
+  intros H [Hp _]. split; [eapply remove_up_to_ack_pos; eauto|].
+  destruct (remove_up_to_ack_struct _ _ _ _ _ _ H) as (a & b & d & _ & _ & _ & E).
+  rewrite E. unfold wadd16, M16. lia.
+Qed.
+
+Lemma calc_pipe_tpos t hr hd rtt now t' p rc :
+  calc_pipe t hr hd rtt now = Some (t', p, rc) -> tpos t -> tpos t'.
+Proof.
+  intros H [Hp Hu]. split; [eapply calc_pipe_pos; eauto|].
+  destruct (calc_pipe_ev _ _ _ _ _ _ _ _ H) as (_ & E & _). rewrite E. exact Hu.
+Qed.
+
+Lemma on_sent_tpos t i now : tpos t -> tpos (on_sent t i now).
+Proof. intros [Hp Hu]. split; [apply on_sent_pos; exact Hp|exact Hu]. Qed.
+
+Lemma pop_mtu_probe_tpos t q t' b : pop_mtu_probe t q = (t', b) -> tpos t -> tpos t'.
+Proof.
+  intros H [Hp Hu]. split; [eapply pop_mtu_probe_pos; eauto|].
+  unfold pop_mtu_probe in H. destruct (last_and_init (ss_segs t)) as [[init g]|].
+  - destruct (_ && _); injection H as <- _; exact Hu.
+  - injection H as <- _; exact Hu.
+Qed.
+
+Lemma pop_expired_tpos t to mr t' pe : pop_expired_mtu_probe t to mr = (t', pe) -> tpos t -> tpos t'.
+Proof.
+  intros H [Hp Hu]. split; [eapply pop_expired_pos; eauto|].
+  unfold pop_expired_mtu_probe in H. destruct (last_and_init (ss_segs t)) as [[init g]|].
+  - destruct (sg_delivered g); [injection H as <- _; exact Hu|].
+    destruct (to && sg_probe g && (mr <=? seg_retransmit_count g));
+      [|destruct (sg_probe g)]; injection H as <- _; exact Hu.
+  - injection H as <- _; exact Hu.
+Qed.
+
+Lemma segment_loop_una : forall fuel nagle ss segs rm rwr ss' segs' rm',
+  segment_loop fuel nagle ss segs rm rwr = Some (ss', segs', rm') -> ss_snd_una segs' = ss_snd_una segs.
+Proof.
+  induction fuel as [|b fuel IH]; intros nagle ss segs rm rwr ss' segs' rm'; cbn [segment_loop].
+  - intro H; injection H as _ <- _. reflexivity.
+  - destruct (_ && _); [|intro H; injection H as _ <- _; reflexivity].
+    destruct (next_segment_size ss) as [[ss1 sz]|]; [|discriminate].
+    destruct (nagle && _ && _); [intro H; injection H as _ <- _; reflexivity|].
+    destruct (mss ss1 <? _).
+    + intro H; injection H as _ <- _. reflexivity.
+    + intro H. apply IH in H. rewrite H. reflexivity.
+Qed.
+
 Section WithCC.
 Context {CC : Type} (cci : cc_iface CC).
 Notation vsock := (vsock CC).
 
-Definition sp (s : vsock) : Prop := 1 <= mss (v_ss s) /\ segs_pos (v_segs s).
+Definition sp (s : vsock) : Prop := 1 <= mss (v_ss s) /\ tpos (v_segs s).
 Definition spR (s s' : vsock) : Prop := sp s -> sp s'.
 
 Lemma spR_refl s : spR s s.
@@ -88,7 +140,7 @@ Proof. destruct m; cbn [stk stRk]; auto using SQ_spR. Qed.
 Ltac sp_same := apply spR_same; exact eq_refl.
 
 Lemma recovery_on_ack_pos r h segs ls cc now rtt r' segs' cc' :
-  recovery_on_ack cci r h segs ls cc now rtt = Some (r', segs', cc') -> segs_pos segs -> segs_pos segs'.
+  recovery_on_ack cci r h segs ls cc now rtt = Some (r', segs', cc') -> tpos segs -> tpos segs'.
 Proof.
   intros H Hp. unfold recovery_on_ack in H. cbn [rv_phase] in H. destruct (rv_phase r).
   - destruct (seq_ge _ _); inversion H; subst; exact Hp.
@@ -96,7 +148,7 @@ Proof.
     match type of H with match ?c with _ => _ end = _ => destruct c as [[dup' la']|] end; [|discriminate].
     destruct (_ <? _); [inversion H; subst; exact Hp|].
     destruct (calc_pipe _ _ _ _ _) as [[[sg pipe] recalc]|] eqn:Ec; [|discriminate].
-    inversion H; subst. eapply calc_pipe_pos; eauto.
+    inversion H; subst. eapply calc_pipe_tpos; eauto.
   - destruct (seq_ge _ _); inversion H; subst; exact Hp.
 Qed.
 
@@ -108,7 +160,7 @@ Proof.
   destruct (recovery_on_ack cci _ _ _ _ _ _ _) as [[[rec1 segs2] cc4]|] eqn:Eo; [|discriminate].
   intro H; injection H as <- _. intros [H1 H2]. unfold sp. vsimpl_goal. split.
   - pose proof (mss_on_payload_delivered (v_ss s1) (ar_max_acked_payload res0)). lia.
-  - eapply recovery_on_ack_pos; [exact Eo|]. eapply remove_up_to_ack_pos; eauto.
+  - eapply recovery_on_ack_pos; [exact Eo|]. eapply remove_up_to_ack_tpos; eauto.
 Qed.
 
 Lemma pim_data_spR s2 m res offset : stRk spR s2 (pim_data cci s2 m res offset).
@@ -226,7 +278,7 @@ Proof.
   - intros s3 _. unfold pa_pipe. destruct (rv_phase _); try apply spR_refl.
     destruct (calc_pipe _ _ _ _ _) as [[[segs' pipe] recalc]|] eqn:Ec; [|exact I].
     cbn [stRk]. intros [H1 H2]. unfold sp, set_recovering. vsimpl_goal. split; [exact H1|].
-    eapply calc_pipe_pos; eauto.
+    eapply calc_pipe_tpos; eauto.
 Qed.
 
 Lemma split_spR (s : vsock) : stRk spR s (split_tx_queue_into_segments cci s).
@@ -253,12 +305,13 @@ Proof.
             end)).
   { intros tl s2 F2. destruct (_ <? _); [exact I|].
     destruct (segment_loop _ _ _ _ _ _) as [[[ss' segs'] rem]|] eqn:El; [|exact I].
-    cbn [stRk]. intro H0. destruct (F2 H0) as [H1 H2].
+    cbn [stRk]. intro H0. destruct (F2 H0) as [H1 [H2 H3]].
     destruct (segment_loop_pos _ _ _ _ _ _ _ _ _ H1 H2 El) as [P1 P2].
-    unfold sp. vsimpl_goal. split; [unfold mss in *; lia|exact P1]. }
+    unfold sp. vsimpl_goal. split; [unfold mss in *; lia|].
+    split; [exact P1|rewrite (segment_loop_una _ _ _ _ _ _ _ _ _ El); exact H3]. }
   destruct pe.
   - apply Hcont. eapply spR_trans; [exact F|].
-    intros [H1 H2]. pose proof (pop_expired_pos _ _ _ _ _ Ep H2) as P.
+    intros [H1 H2]. pose proof (pop_expired_tpos _ _ _ _ _ Ep H2) as P.
     unfold sp. destruct (seq_gt _ _); vsimpl_goal; (split; [rewrite mss_on_probe_failed; exact H1|exact P]).
   - cbn [stRk]. eapply spR_trans; [exact F|]. sp_same.
   - apply Hcont. exact F.
@@ -270,7 +323,7 @@ Proof.
   destruct (send_data s h f) as [s' [| |]|s' e|]; cbn [stRk]; auto.
   - destruct H as (Hf & _ & Hs & _). unfold sd_frame in Hf.
     destruct Hf as (F1 & F2 & F3 & F4 & F5 & F6 & F7 & F8 & F9 & _).
-    intros [H1 H2]. unfold sp. rewrite F9, Hs. split; [exact H1|apply on_sent_pos; exact H2].
+    intros [H1 H2]. unfold sp. rewrite F9, Hs. split; [exact H1|apply on_sent_tpos; exact H2].
   - apply SQ_spR, sd_unchanged_SQ. apply H.
   - apply SQ_spR, sd_unchanged_SQ. apply H.
 Qed.
@@ -340,7 +393,7 @@ Proof.
       unfold new_branch. apply (stRk_bind spR spR_trans); [apply new_data_loop_spR|].
       intros s3 tl. unfold new_after. destruct tl as [[sq sz]|]; [|apply spR_refl].
       destruct (pop_mtu_probe _ _) as [segs' popped] eqn:Ep. destruct popped; cbn [stRk]; [|exact I].
-      intros [H1 H2]. unfold sp. vsimpl_goal. split; [exact H1|]. eapply pop_mtu_probe_pos; eauto.
+      intros [H1 H2]. unfold sp. vsimpl_goal. split; [exact H1|]. eapply pop_mtu_probe_tpos; eauto.
 Qed.
 
 (* ------------------------------------------------------------------ a whole Pending poll, every live event *)
@@ -385,12 +438,13 @@ Proof.
   - unfold vstep_state. cbn [vstep]. destruct (drop_writer (v_tx s)) as [tx1 w]. exact Hp.
 Qed.
 
-Lemma sp_vsock_new mk c s : vsock_new cci mk c = Some s -> sp s.
+Lemma sp_vsock_new mk c s : 0 <= vc_isn c < M16 -> vsock_new cci mk c = Some s -> sp s.
 Proof.
-  intro H. split; [eapply mss_pos_vsock_new; exact H|].
+  intros Hi H. split; [eapply mss_pos_vsock_new; exact H|].
   unfold vsock_new in H.
   destruct (match (if vc_incoming c then None else _) with Some r => _ | None => _ end); [|discriminate].
-  inversion H; subst. unfold segs_pos, segments_new. cbn [v_segs ss_segs]. constructor.
+  inversion H; subst. unfold tpos, segs_pos, segments_new. cbn [v_segs ss_segs ss_snd_una].
+  split; [constructor|]. destruct (vc_incoming c); [exact Hi|unfold wadd16, M16; lia].
 Qed.
 
 End WithCC.
